@@ -189,8 +189,28 @@ def one_case(job):
             tgt["signed_attestations"][0]["source_epoch"] = bad_detail
         else:
             tgt["signed_blocks"] = [dict(slot=bad_detail)]
+    # FILE FORM classes (same meaning, different spelling - hex.DecodeString / encoding/json accept them all): the key of a repeated
+    # entry in upper case or without its 0x prefix, signing roots and unknown extra fields, pretty-printed JSON
+    form = ("plain", "upperkey", "noprefix", "extras", "pretty")[(idx // 2) % 5]
+    seen_k0 = 0
+    for d in data:
+        if d["pubkey"] == "0x" + pubs[0]:
+            seen_k0 += 1
+            if form == "upperkey" and (seen_k0 % 2 == 0 or len(ents0) == 1 or idx % 2):
+                d["pubkey"] = "0x" + pubs[0].upper()
+            elif form == "noprefix" and (seen_k0 % 2 == 0 or len(ents0) == 1 or idx % 2):
+                d["pubkey"] = pubs[0]
+        if form == "extras":
+            d["note"] = dict(a=[1, "2", None])
+            for j, x in enumerate(d.get("signed_attestations") or []):
+                x["signing_root"] = "0x%064x" % (j + 1)
+            for j, x in enumerate(d.get("signed_blocks") or []):
+                if j % 2 == 0:
+                    x["signing_root"] = "0x%064x" % (j + 7)
+    if form == "extras":
+        meta["producer"] = "verif"
     f = os.path.join(jd, "file.json")
-    json.dump(dict(metadata=meta, data=data), open(f, "w"))
+    json.dump(dict(metadata=meta, data=data), open(f, "w"), indent=2 if form == "pretty" else None)
     irc, out, errtxt = run_dirk(["--import-slashing-protection", "--genesis-validators-root=" + GVR, "--slashing-protection-file=" + f], db, jd)
     scB = dict(id=sid, world=world, conc=conc, dir=db, keep_dir=False, raw_dump=True,
                ops=[dict(id="after", kind="export")] + probes_for(0, NV, "x") + probes_for(1, NV, "y"))
